@@ -547,6 +547,39 @@ func (w *World) Yield(where string) {
 	w.Park(g, "y: "+where)
 }
 
+// YieldCtx is Yield for a scheduling point that has a context in scope. The harness
+// marks the context it hands to coercion.New and to every API call with the incarnation
+// (WithGen), and the engine derives its contexts from those, so here the caller's
+// process is known: a goroutine of a dead process passes through (it must never be
+// parked again, see Kill), a goroutine of the live process parks - also in a recovering
+// incarnation, which is what lets the seed interleave the in-memory steps of recovery
+// (several plans recovered at once, claim / waiter bookkeeping of the new Workstream).
+// A context that carries no mark (the engine used context.Background(), as fixBlock
+// does for the sequences it re-executes) is treated like a point without context.
+func (w *World) YieldCtx(ctx interface{ Value(any) any }, where string) {
+	if !w.Spec.Policy.Yields {
+		return
+	}
+	g, ok := ctx.Value(genKey{}).(int)
+	if !ok {
+		w.Yield(where)
+		return
+	}
+	w.mu.Lock()
+	cur := w.gen
+	w.mu.Unlock()
+	if g != cur {
+		return
+	}
+	if g != 0 {
+		if w.Spec.Policy.YieldGen0Only {
+			return
+		}
+		w.Probe("scheduling point inside a recovering incarnation")
+	}
+	w.Park(g, "y: "+where)
+}
+
 // DetselPerm is installed as the hook the rewritten non-blocking selects call:
 // it returns the order in which the n receive clauses are polled.
 func (w *World) DetselPerm(n int) []int {
